@@ -399,7 +399,8 @@ class Ctx:
             cov["samples"] = [{"note": "no case recorded"}]
         os.makedirs(os.path.join(VERIF, "evidence"), exist_ok=True)
         # evidence is only what the check observed on /repo itself (never a scratch copy or a replay)
-        if not self.replay_path and os.path.realpath(self.repo) == "/repo":
+        partial = [k for k in os.environ if k.startswith("VERIF_") and k.endswith("_ONLY")]     # development runs
+        if not self.replay_path and os.path.realpath(self.repo) == "/repo" and not partial:
             with open(os.path.join(VERIF, "evidence", self.pid + ".json"), "w") as f:
                 json.dump(ev, f, indent=1)
         for k in self.known_hits:
